@@ -615,3 +615,61 @@ def shared_container_rule(ctx, rid, scope, min_instances=50):
             r.fail(f.qualname, f"class-level-buffer:{fills[0][1].lstrip('_')}", f.file, n.lineno, f"{ci.name}.{f.name}", f"an array kept in the class-level container `{ci.name}.{fills[0][1]}` is {how} without a copy: every instance (e.g. the trial field and its copy the test field; every Gauss object of one element type) shares that buffer, a write through one of them changes the others")
         else:
             r.ok()
+
+
+SCALAR_ATTRS = {"shape", "size", "ndim", "dtype", "nnz", "format"}
+
+
+def copy_out_rule(ctx, rid, method_names, base_cls, min_instances=2):
+    """The matrices / vectors a simulation stores are handed out as whole copies: every occurrence of stored state in a
+    returned expression is `<state>.copy()` (or a scalar attribute such as .shape).  A partial copy -- private values,
+    shared index arrays -- lets a structural edit of the returned object rewrite the stored pattern."""
+    from .flow import Locals
+
+    repo = ctx.repo
+    r = ctx.rule(rid, "stored matrices are returned as whole copies: each occurrence of stored state in a returned expression is `<state>.copy()` (or a scalar attribute)", min_instances=min_instances)
+    base = repo.cls(base_cls)
+    for ci in [base] + repo.subclasses(base):
+        for mname in method_names:
+            f = ci.methods.get(mname)
+            if f is None or f.cls is not ci:
+                continue
+            r.instance(fn=f.qualname)
+            L = Locals(f.node)
+            bad = None
+            for ret in ast.walk(f.node):
+                if not isinstance(ret, ast.Return) or ret.value is None:
+                    continue
+                e = L.expand(ret.value)
+                ast.fix_missing_locations(e)
+                parents = {}
+                for p in ast.walk(e):
+                    for c in ast.iter_child_nodes(p):
+                        parents[c] = p
+                # comprehension variables ranging over state are state roots
+                loopvars = set()
+                for n in ast.walk(e):
+                    if isinstance(n, ast.comprehension) and any(_is_private_state(x) for x in ast.walk(n.iter)):
+                        loopvars |= {x.id for x in ast.walk(n.target) if isinstance(x, ast.Name)}
+                for n in ast.walk(e):
+                    is_root = _is_private_state(n) or (isinstance(n, ast.Name) and n.id in loopvars and isinstance(n.ctx, ast.Load))
+                    if not is_root:
+                        continue
+                    p = parents.get(n)
+                    if isinstance(p, ast.comprehension) or (isinstance(p, (ast.Tuple, ast.List)) and isinstance(parents.get(p), ast.comprehension)):
+                        continue  # the iterable itself
+                    if isinstance(p, ast.Attribute) and p.value is n:
+                        if p.attr in SCALAR_ATTRS:
+                            continue
+                        pp = parents.get(p)
+                        if p.attr == "copy" and isinstance(pp, ast.Call) and pp.func is p:
+                            continue
+                    bad = (ret, n, p)
+                    break
+                if bad:
+                    break
+            if bad:
+                ret, n, p = bad
+                r.fail(f.qualname, "partial-copy", f.file, ret.lineno, f"{ci.name}.{mname}", f"stored state `{norm_text(n)}` reaches the returned value as `{norm_text(p)[:60] if p is not None else norm_text(n)}` (not a whole `.copy()`): the caller's object shares arrays with the stored matrix / the cached sparsity pattern")
+            else:
+                r.ok(f"{ci.name}.{mname}: whole copies")
